@@ -19,7 +19,7 @@ for u in UNITS:
     if u["unit"] == "prover_channel":
         u["trusted"] = [DBLP]
 
-native_unit("stark_native", "examples", "examples", "native/stark_bounded.rs", ["C04", "C03", "C06", "C12"],
+native_unit("stark_native", "examples", "examples", "native/stark_bounded.rs", ["C04", "C03", "C06", "C12", "C17"],
             ["Prover::generate_proof", "verifier::verify / perform_verification", "Proof::to_bytes / from_bytes", "VerifierChannel::new", "ProverChannel"],
             "every honest proof of the grid is accepted after a serialization round trip that leaves it unchanged (prover and verifier derive the same challenges); proofs are refused for other public inputs; every tested single-bit flip of a serialized proof is refused and neither parsing nor verification panics",
             "NATIVE EXECUTION, not a proof: 6 example computations (single- and multi-segment) x 22 option sets (2 extensions x 5 FRI schedules x grinding {0, 9} + 2) over the 128-bit field; bit flips on 2 small proofs x 4 option sets: every 5th bit (quick) / every bit (thorough)",
